@@ -26,7 +26,7 @@ def bind_layout():
     lay = importlib.import_module('pvf.contracts.layout')
     den = importlib.import_module('pvf.contracts.layout_den')
     WR = collections.namedtuple('WR', 'status w')
-    St = collections.namedtuple('St', 'out col k')
+    St = collections.namedtuple('St', 'out col k brk fl')
     names = dict(
         NIL=T.NIL, HARDLINE=T.HARDLINE, Concat=T.Concat, Nest=T.Nest, Group=T.Group, AlwaysBreak=T.AlwaysBreak,
         Fill=T.Fill, FlatChoice=T.FlatChoice, Annotated=T.Annotated, Contextual=T.Contextual, Nil=T.Nil, HardLine=T.HardLine,
